@@ -7,9 +7,9 @@ EXTENDS Rel, Json, SequencesExt
 CONSTANTS TNs, RNs, MaxRels   \* type names, relationship names (symbol sequences)
 
 \* universes (cfg files cannot hold tuples): 1=a 2=b 3=c 4=_
-TNsQ == {<<1>>, <<1,2>>, <<1,4,2>>}
+TNsQ == {<<1>>, <<1,2>>, <<1,4,2>>, <<10>>}   \* 10 = "A": a name that differs from "a" by case only
 RNsQ == {<<3>>, <<2,3>>, <<2,4,3>>}
-TNsT == {<<1>>, <<1,2>>, <<1,4,2>>, <<2>>}
+TNsT == {<<1>>, <<1,2>>, <<1,4,2>>, <<2>>, <<10>>}
 RNsT == {<<3>>, <<2,3>>, <<2,4,3>>, <<1>>, <<1,2>>}
 
 AllRelVals == { [ft |-> a, fn |-> n, to1 |-> c, tt |-> b, tn |-> m, fo1 |-> d] :
